@@ -238,6 +238,21 @@ fn run_case<G: AffineRepr>(env: &Env<G>, c: &Case) -> CaseOut {
             o.count(&format!("empty-batch(observed only): {}", res_name(&rb)), 1);
             continue;
         }
+        // the same batch handed over as a lazily-sized iterator must give the same verdict
+        {
+            let mode = 1 + (bi % 2) as u8;
+            let (rb2, _) = batch_rng_mode::<G>(env, &items, &env.bp, c.seed ^ (bi as u64) << 3, mode);
+            o.evals += 1;
+            if rb2.is_ok() != all_ok {
+                o.violate(
+                    format!("batch-vs-conjunction(iterator):{}:{}", class, if rb2.is_ok() { "batch-accepts" } else { "batch-rejects" }),
+                    format!("batch '{}' of {} instances passed as {} iterator: batch_verify says {} but the individual verdicts are {:?}", name, members.len(), if mode == 1 { "a filtered" } else { "a chained exact+filtered" }, res_name(&rb2), singles),
+                    detail(),
+                );
+            } else {
+                o.count("lazily-sized iterator: verdict equals conjunction", 1);
+            }
+        }
         if rb.is_ok() != all_ok {
             o.violate(
                 format!("batch-vs-conjunction:{}:{}", class, if rb.is_ok() { "batch-accepts" } else { "batch-rejects" }),
